@@ -166,6 +166,7 @@ def server_scenario(r, length=None, small=False):
     deadlines = []
     phase = [d0, d0 + cfg[5], d0 + 3 * cfg[5], d0 + 7 * cfg[5], d0 + cfg[6]]
     running = True
+    announced = set(range(1, ninst + 1))
     for _ in range(n):
         t = jitter_times(r, deadlines + phase, end - T)
         c = r.random()
@@ -195,9 +196,7 @@ def server_scenario(r, length=None, small=False):
             raw.append((t, ("api", [16 if running else 15])))
             running = not running
         elif c < 0.86:
-            raw.append((t, ("api", [18, r.randint(1, ninst), r.random() < 0.8])))
-        elif c < 0.9:
-            raw.append((t, ("api", [17, r.randint(1, ninst)])))
+            raw.append((t, ("toggle-announce", r.randint(1, ninst), r.random() < 0.8)))
         elif c < 0.94:
             raw.append((t, ("api", [2])))
         else:
@@ -221,6 +220,16 @@ def server_scenario(r, length=None, small=False):
     raw.sort(key=lambda x: x[0])
     events = []
     for t, ev in raw:
+        if ev[0] == "toggle-announce":
+            # an instance is announced at most once at a time (announcing it twice is a misuse outside every property)
+            _, i, send = ev
+            if i in announced:
+                announced.discard(i)
+                events.append((t, (1, [18, i, send])))
+            else:
+                announced.add(i)
+                events.append((t, (1, [17, i])))
+            continue
         if ev[0] in ("dg", "reboot-dg"):
             _, a, mc, es = ev
             if ev[0] == "reboot-dg":
